@@ -43,7 +43,8 @@ def make_session(rng, force_constraint=False):
     elif which == "sir":
         true = {"beta": 0.5, "gamma": 1.0 / 3.0}
         ode = common_models.SIR_norm(dict(true))
-        x0 = [0.98, 0.02, 0.0]
+        # now and then some of the population starts as removed (a constraint then has to subtract it too)
+        x0 = [0.98, 0.02, 0.0] if rng.random() < 0.6 else [0.88, 0.02, 0.10]
         t = np.linspace(0, 30, 13)
         obs = rng.choice([["I"], ["I", "R"], ["R", "I"], ["S", "I", "R"]])
         states = ["S", "I", "R"]
@@ -109,7 +110,12 @@ def make_session(rng, force_constraint=False):
     cfg = {"which": which, "true": true, "x0": x0, "t": t, "obs": obs, "table": table, "loss_type": loss_type,
            "mode": mode, "N": N, "G": G, "q": rng.choice([0.3, 0.5, 0.7]) if mode == "quantile" else None,
            "M": (rng.randint(max(3, N // 3), N - 1) if rng.random() < 0.35 and mode != "rejection" else None),
-           "cont": (mode == "quantile" and rng.random() < 0.5), "sigma": (rng.choice([0.05, 0.2]) if loss_type == "NormalLoss" else None),
+           "cont": (mode == "quantile" and rng.random() < 0.5),
+           # the continued run starts from the tolerance the first run proposes, or from a tighter one the user picks
+           "cont_tighter": rng.random() < 0.5,
+           # the same ABC object is used again for a fresh, smaller run
+           "restart": rng.random() < 0.35,
+           "sigma": (rng.choice([0.05, 0.2]) if loss_type == "NormalLoss" else None),
            "states": states,
            # population constraint: the named state's initial value is set to (total - the others) after every update of the
            # inferred initial conditions
@@ -256,14 +262,28 @@ def perform_session(seed):
         else:
             tol = np.inf
         calls.append(("get", tol))
-        rec.append({"ev": "Start", "tolv": tol[0] if hasattr(tol, "__len__") else tol})
+        rec.append({"ev": "Start", "tolv": tol[0] if hasattr(tol, "__len__") else tol, "n": cfg["N"]})
         abc.get_posterior_sample(N=cfg["N"], tol=tol, G=cfg["G"], q=cfg["q"], M=cfg["M"])
         rec.append({"ev": "Final", "res": abc.res.copy(), "dist": abc.dist.copy(), "w": abc.w.copy(),
                     "tolerances": abc.tolerances.copy(), "finaltol": float(abc.final_tol)})
         if cfg["cont"]:
-            calls.append(("continue", float(abc.next_tol)))
-            rec.append({"ev": "Continue", "tolv": float(abc.next_tol)})
-            abc.continue_posterior_sample(N=cfg["N"], tol=abc.next_tol, G=2, q=cfg["q"], M=cfg["M"])
+            ctol = float(abc.next_tol)
+            if cfg.get("cont_tighter"):
+                # a tolerance of the user's own choosing, tighter than the proposed one but with plenty of the current
+                # particles below it (a nearly empty kernel would make the sampler loop for ever)
+                alt = float(np.quantile(abc.dist, 0.8 * cfg["q"]))
+                if np.isfinite(alt) and alt < ctol and int(np.sum(abc.dist < alt)) >= 4:
+                    ctol = alt
+            calls.append(("continue", ctol))
+            rec.append({"ev": "Continue", "tolv": ctol})
+            abc.continue_posterior_sample(N=cfg["N"], tol=ctol, G=2, q=cfg["q"], M=cfg["M"])
+            rec.append({"ev": "Final", "res": abc.res.copy(), "dist": abc.dist.copy(), "w": abc.w.copy(),
+                        "tolerances": abc.tolerances.copy(), "finaltol": float(abc.final_tol)})
+        if cfg.get("restart") and np.isfinite(med):
+            n2 = max(2, cfg["N"] // 2)
+            calls.append(("get-again", float(med), n2))
+            rec.append({"ev": "Restart", "tolv": float(med), "n": n2})
+            abc.get_posterior_sample(N=n2, tol=float(med), G=1)
             rec.append({"ev": "Final", "res": abc.res.copy(), "dist": abc.dist.copy(), "w": abc.w.copy(),
                         "tolerances": abc.tolerances.copy(), "finaltol": float(abc.final_tol)})
     except np.linalg.LinAlgError as ex:
@@ -322,11 +342,11 @@ def to_trace(sess):
     gens_in_call = 0
     cur_gen = None
     for k, e in enumerate(rec):
-        if e["ev"] in ("Start", "Continue"):
+        if e["ev"] in ("Start", "Continue", "Restart"):
             call += 1
             cur_gen = None
-            events.append({"ev": e["ev"], "tol": rk(e["tolv"])})
-            detail.append({"tol": e["tolv"]})
+            events.append({"ev": e["ev"], "tol": rk(e["tolv"]), "n": int(e.get("n", 0))})
+            detail.append({"tol": e["tolv"], "n": e.get("n")})
         elif e["ev"] == "Accept":
             if cur_gen is not None and e["gen"] != cur_gen:
                 events.append({"ev": "EndGen", "next": rk(e["tolv"])})
